@@ -677,6 +677,50 @@ def chars_layer(ctx, res, m, rng, note, oc):
             note("chars-write-update_file", ok, ("c_update_file", pad[0] + base + pad[1], sol))
             stats["update-files"] += 1
             res.count(("chars-update", base, tuple(sol), tuple(bools)), nontrivial=len(sol) > 0)
+    # ---- C4 call_cmsgen_python's text, byte for byte, and the sampler-output reader on both texts ----
+    base = "p cnf 6 2\nc ind 1 2 3 0\n1 2 0\n-4 5 6 0\n"
+    base_nss = "p cnf 4 1\n\n1 -2 0\n"
+    cases, lines = [], []
+    for _ in range(160 if q else 800):
+        k = rng.randint(0, 4)
+        sols = [[rng.random() < 0.5 for _ in range(rng.randint(1, 8))] for _ in range(k)]
+        samples = [[(i + 1) * rng.choice([-1, 1]) for i in range(rng.randint(0, 5))] for _ in range(k)]
+        b = rng.choice([base, base_nss])
+        ss = [1, 2, 3] if b is base else [1, 2, 3, 4]
+        cases.append((sols, samples, b))
+        lines += [sexp([Atom("c_cmsgen_format"), ss, [[1 if x else 0 for x in s] for s in sols]]),
+                  sexp([Atom("c_unigen_format"), samples])]
+    outs = ctx.model(lines)
+    outs2 = ctx.model([sexp([Atom("c_parse_sampler"), Atom(o)]) for o in outs])
+    with scratch() as d, quiet():
+        p = d / "in.cnf"
+        for i, (sols, samples, b) in enumerate(cases):
+            p.write_bytes(b.encode("latin-1"))
+            queue = [(True, tuple(s)) for s in sols]
+
+            class CSolver:
+                def __init__(self, seed=None):
+                    pass
+
+                def add_clause(self, c):
+                    pass
+
+                def solve(self):
+                    return queue.pop(0)
+
+            class CMod:
+                Solver = CSolver
+            with patched(m["ug"], "pycmsgen", CMod):
+                t2 = m["ug"].call_cmsgen_python(p, len(sols))
+            note("chars-write-cmsgen-output", t2 == unhx(outs[2 * i]), ("c_cmsgen_format", sols))
+            for j, t in enumerate((t2, unhx(outs[2 * i + 1]))):
+                with patched(m["su"], "call_unigen", lambda *a, **k: t):
+                    r = guard(lambda: m["su"].sample_uniform(3, CNF([[1]]), 1, 1, [], use_docker=False))
+                o = outs2[2 * i + j]
+                ok = (o == "none") if isinstance(r, tuple) else (o != "none" and [[list(x.assignment), x.frequency] for x in r] == parse_sexp(o)[0])
+                note("chars-read-sampler-output", ok, ("c_parse_sampler", t))
+            stats["sampler-texts"] += 2
+            res.count(("chars-sampler", repr(sols), repr(samples)), nontrivial=len(sols) > 0)
     res.extra["chars_statistics"] = dict(sorted(stats.items()))
 
 # --------------------------------------------------------------------------- run
@@ -1053,7 +1097,7 @@ def run(ctx, res):
                                                     "C27_update_file_blocks", "C27_chars_layer", "C27_text_lexes_to_tokens",
                                                     "C27_parse_print_chars", "C27_header_vars_chars",
                                                     "C27_solver_output_roundtrip_chars", "C27_update_file_chars",
-                                                    "C27_update_file_blocks_chars"], "first_mismatch": repr(broken[k][0])},
+                                                    "C27_update_file_blocks_chars", "C27_sampler_output_roundtrip_chars"], "first_mismatch": repr(broken[k][0])},
             failing_input=False))
 
 
